@@ -166,11 +166,16 @@ void ReadRecordHeader(
             if (fread(Gran, 1, 1, f) != 1) {
                 ChkRdIO(Name, f);
             }
+            if ((*Segment >= SegCount) || (*Gran == 0)) {
+                FormatError(Name, catgetmessage(&MsgCat, Num_FormatBadRecordMsg));
+            }
         } else if (*Header <= 0x7f) {
             *CPU     = *Header;
             *Header  = FileHeaderDataRec;
             *Segment = SegCode;
             *Gran    = Granularity(*CPU, *Segment);
+        } else if (*Header != FileHeaderRelocInfo) {
+            FormatError(Name, catgetmessage(&MsgCat, Num_FormatBadRecordMsg));
         }
     }
 }
